@@ -31,6 +31,12 @@ def run(ctx):
     _map(ctx, m)
     _api(ctx, m)
     _timezone_name(ctx, m)
+    # every zone name the writer can emit is a token the ZINC reader accepts as a date-time (D2; the date-time row of
+    # C01.D2's writer-template vs reader-alternative inclusion)
+    from . import _zinc
+    for version in ('3.0', '2.0'):
+        t = _zinc.writer_templates(ctx, 'C17.D2', 'zincdumper', 'zinc', version)
+        _zinc.pairing(ctx, 'C17.D2', version, {k: v for k, v in t.items() if k == 'datetime'})
 
 
 def _map(ctx, m):
@@ -202,6 +208,22 @@ def _timezone_name(ctx, m, rule='C17.D3'):
     dt = fn.args.args[0].arg
     body = body_wo_doc(fn)
     where = '%s:%d' % (FZ, fn.lineno)
+    # memoisation: aware datetimes compare (and hash) by INSTANT, so a cache keyed by the argument conflates the same
+    # instant in two zones
+    orig = m.func('zoneinfo', 'timezone_name')
+    for d in orig.decorator_list:
+        dn = norm(d.func) if isinstance(d, ast.Call) else norm(d)
+        if dn.split('.')[-1] in ('lru_cache', 'cache', 'memoize', 'memoized', 'cached', 'cached_property'):
+            ctx.violation(rule, '%s::timezone_name' % FZ, '@' + norm(d),
+                          'one grid with the columns tsUtc = 2021-06-01T00:00:00Z (UTC) and tsSite = 2021-06-01T10:00:00+10:00 '
+                          '(Brisbane): the two values are == and hash alike (same instant), so the second look-up returns the '
+                          'cached name of the first -- it is written `...+10:00 UTC` and reads back in another zone',
+                          'timezone_name is memoised on its argument; equality of aware date-times ignores the zone', file=FZ,
+                          line=orig.lineno, engine='E7')
+        else:
+            ctx.error(rule, 'timezone_name carries the decorator @%s: effect not tabled; cannot decide' % norm(d))
+    if not orig.decorator_list:
+        ctx.ob(rule, 'timezone_name is not memoised (its answer depends on zone AND instant, not on datetime equality)', True, where)
     rmaps = [norm(x.targets[0]) for x in body if isinstance(x, ast.Assign) and len(x.targets) == 1
              and isinstance(x.value, ast.Call) and norm(x.value.func) == 'get_tz_rmap']
     rmap = rmaps[0] if rmaps else 'tz_rmap'
